@@ -27,6 +27,7 @@ package byteslice
 //@   requires p != nil && classes(p)
 //@   modifies released
 //@   ghostdef released[arr(res)] := false
+//@   ensures forall a Ref :: a != arr(res) ==> released[a] == old(released[a])
 //@   ensures size <= 0 ==> res == nil
 //@   ensures size > 0 ==> len(res) == size && cap(res) >= size
 //@   assumes fresh(res)
@@ -40,6 +41,7 @@ package byteslice
 //@ func Get(size int) []byte
 //@   modifies released
 //@   ghostdef released[arr(res)] := false
+//@   ensures forall a Ref :: a != arr(res) ==> released[a] == old(released[a])
 //@   ensures size <= 0 ==> res == nil
 //@   ensures size > 0 ==> len(res) == size && cap(res) >= size
 //@   assumes fresh(res)
